@@ -110,7 +110,7 @@ func TestVerif_C01_h3body(t *testing.T) {
 		str := newStream(rec, nil, nil, nil)
 		var err error
 		if txt, p := verifh.Safely(func() {
-			err = rt.sendRequestBody(str, body, nil)
+			err = rt.sendRequestBody(str, body, nil, func(error) {})
 			str.Close() // doRequest: `str.Close()` after the copy, whatever it returned
 		}); p {
 			s.Crash(id, human, txt, "")
